@@ -1,7 +1,7 @@
 (* Wire encoding shared by the entry points of C03 and C06 (dimension-wise strategy) — definitions only. *)
 From Coq Require Import ZArith List Bool QArith Qcanon Arith.
 From SG Require Model.StdCombi.
-From SG Require Import Base.Sx Base.QcUtil Model.CombiScheme Model.RefTree Model.DimWise Model.DimWiseInterp.
+From SG Require Import Base.Sx Base.QcUtil Model.CombiScheme Model.RefTree Model.DimWise Model.DimWiseInterp Model.DimWiseInstall.
 Import ListNotations.
 Open Scope Z_scope.
 
@@ -133,7 +133,11 @@ Fixpoint run_checked (o : dw_opts) (steps : list (list (list Qc))) (st : dw_stat
    sub 1: (a b lmaxs trees) -> tree_ok per dimension, on an implementation state
    sub 2: (sf (pos pos1 m) ...) -> exact decisions ; sub 3: (dim (sv d) ...) -> exact version-3 decisions
    sub 4: (history alpha beta points) -> combined interpolant of f = sum alpha_k x_k^2 + prod (beta_k + x_k) in the final
-          state at the given points *)
+          state at the given points
+   sub 5: (history install_rebalance trees) -> as sub 0, but the run starts from the state obtained by installing the given
+          trees (one interval list per dimension, any levels, coarsening ignored) into the freshly initialised state and
+          running refinement_postprocessing (Model/DimWiseInstall.v); state0 = the installed state
+   sub 6: (history install_rebalance trees alpha beta points) -> as sub 4 for a run from an installed state *)
 Definition entry_dimwise (sub : Z) (x : sx) : sx :=
   match sub, x with
   | 0, _ =>
@@ -172,6 +176,31 @@ Definition entry_dimwise (sub : Z) (x : sx) : sx :=
       end
     | inr e, _, _, _ => sx_err e
     | _, _, _, _ => sx_err 2
+    end
+  | 5, Lv [h; rb; trees] =>
+    match decode_history h, get_bool rb, get_trees trees with
+    | inl (Some (what, o, a, b, steps, st)), Some rb, Some trees =>
+      match dw_install o rb trees st with
+      | Some st1 => Lv (of_state what o a b st1 :: run_states what o a b steps st1)
+      | None => sx_err 4
+      end
+    | inr e, _, _ => sx_err e
+    | _, _, _ => sx_err 2
+    end
+  | 6, Lv [h; rb; trees; al; be; pts] =>
+    match decode_history h, get_bool rb, get_trees trees, get_LQc al, get_LQc be, get_LLQc pts with
+    | inl (Some (_, o, a, b, steps, st)), Some rb, Some trees, Some al, Some be, Some pts =>
+      match (match dw_install o rb trees st with Some st1 => run_checked o steps st1 | None => None end) with
+      | Some st' =>
+        if forallb (fun kv => match get_point_coord_for_each_dim o st' (fst kv) with
+                              | Some _ => Nat.eqb (length (fst kv)) (st_dim st') | None => false end)
+                   (combi_scheme_adaptive (st_scheme st'))
+        then Lv (map (fun p => of_Qc (dw_combi_interp o st' a b (StdCombi.fun_poly al be) p)) pts)
+        else sx_err 8
+      | None => sx_err 5
+      end
+    | inr e, _, _, _, _, _ => sx_err e
+    | _, _, _, _, _, _ => sx_err 2
     end
   | _, _ => sx_err 0
   end.
